@@ -292,6 +292,18 @@ pub struct Outcome {
 
 /// The documented caller loop.
 pub fn run_plan(p: &Plan, fill: u8) -> Outcome {
+    run_plan_ex(p, fill, false)
+}
+
+/// Does the operation line of this plan get one more call after the caller loop has ended normally (a
+/// call on a decoder that has seen `last` and returned `InputEmpty` must panic; the model's `finished`
+/// state)?  Decided by the plan alone, so that replays reproduce the line.
+pub fn pokes_finished(p: &Plan) -> bool {
+    (p.stream.len() + p.cuts.len() + p.caps.len() + p.caps[0] % 7) % 4 == 0
+}
+
+/// `poke`: after the loop has ended without a panic, call once more (empty source, `last`) and record the call
+pub fn run_plan_ex(p: &Plan, fill: u8, poke: bool) -> Outcome {
     let mut d = new_decoder(p.enc, p.bom);
     let mut calls = Vec::new();
     let mut start = 0usize;
@@ -351,7 +363,12 @@ pub fn run_plan(p: &Plan, fill: u8) -> Outcome {
         }
         start = end;
     }
-    Outcome { calls, final_enc: d.encoding(), aborted }
+    let final_enc = d.encoding();
+    if poke && aborted.is_none() {
+        let rec = one_call(&mut d, p.sink16, p.repl, &[], min_cap(p.sink16), true, fill, capi);
+        calls.push(rec);
+    }
+    Outcome { calls, final_enc, aborted }
 }
 
 pub fn show_calls(calls: &[CallRec], sink16: bool) -> String {
@@ -886,8 +903,15 @@ pub fn emit(out: &mut Out, p: &Plan, props: &[&str]) {
     // the model states the contract for capacities at or above the documented
     // minimum; below it only the bounds oracles apply
     if o.calls.iter().all(|c| c.cap >= min_cap(p.sink16)) {
-        let lhs = op_lhs(p, &o.calls);
-        out.op(lhs, format!("ok {}", ident(o.final_enc)));
+        if o.aborted.is_none() && pokes_finished(p) {
+            // the same history plus one call after the end (the oracles below see the history without it)
+            let o2 = run_plan_ex(p, 0, true);
+            let lhs = op_lhs(p, &o2.calls);
+            out.op(lhs, format!("ok {}", ident(o2.final_enc)));
+        } else {
+            let lhs = op_lhs(p, &o.calls);
+            out.op(lhs, format!("ok {}", ident(o.final_enc)));
+        }
     }
     oracles(out, p, &o, props);
 }
@@ -1305,6 +1329,8 @@ pub fn generate(prop: &str, out: &mut Out, thorough: bool, seed: u64) -> bool {
                 emit(out, &p, &props);
             }
         }
+        // systematic regimes added after the model-mutation audit (no randomness: the histories above are unchanged)
+        crate::decsys::generate_for(out, e, &props, prop);
     }
     true
 }
